@@ -2,20 +2,58 @@ CFG = {'assumptions': ["64*len(words) < 2^31 (Go's int32 positions cannot overfl
                  'statement)',
                  'every word is in [0,2^64) (words_ok)',
                  'select queries: 0 <= i < number of 1-bits; the select index is the one IndexSelect32 / '
-                 'IndexSelect32R64 built for the same words'],
- 'files': ['bitmap/select.go', 'bitmap/rank.go', 'bitmap/mask.go'],
+                 'IndexSelect32R64 built for the same words',
+                 'select(rank(p)) composites: 0 <= p < 64*len(words) and some 1-bit at or after p (otherwise Select32 '
+                 'is called with i = n, outside its domain)'],
+ 'files': ['bitmap/select.go', 'bitmap/rank.go', 'bitmap/mask.go', 'bitmap/next.go', 'bitmap/toarray.go'],
  'go': {'bitmap.IndexSelect32': 'bitmap.IndexSelect32',
         'bitmap.IndexSelect32R64': 'bitmap.IndexSelect32R64',
+        'bitmap.NextOne/Rank64': 'bitmap.NextOne(ws, p, 64*len) beside bitmap.Select32 of bitmap.Rank64(ws, '
+                                 'IndexRank64(ws,true), p) (or -1 when that rank is the total)',
+        'bitmap.PrevOne/Select32': 'bitmap.IndexSelect32 + bitmap.Select32, then bitmap.PrevOne(ws, 0, a) up to the '
+                                   'selected bit',
+        'bitmap.PrevOne/Select32R64': 'bitmap.IndexSelect32R64 + bitmap.Select32R64, then bitmap.PrevOne(ws, 0, a)',
+        'bitmap.Rank128/Select32R64': 'bitmap.IndexSelect32R64 + bitmap.Select32R64, then bitmap.IndexRank128 + '
+                                      'bitmap.Rank128 at the selected position',
+        'bitmap.Rank64/Select32': 'bitmap.IndexSelect32 + bitmap.Select32, then bitmap.IndexRank64 + bitmap.Rank64 at '
+                                  'the selected position',
         'bitmap.Select32': 'bitmap.IndexSelect32 + bitmap.Select32',
-        'bitmap.Select32R64': 'bitmap.IndexSelect32R64 + bitmap.Select32R64',
+        'bitmap.Select32/NextOne': 'bitmap.IndexSelect32 + bitmap.Select32, then bitmap.NextOne(ws, a+1, 64*len) from '
+                                   'just after the selected bit',
+        'bitmap.Select32/Rank64': 'bitmap.IndexRank64(ws,true) + bitmap.Rank64 at p, then bitmap.IndexSelect32 + '
+                                  'bitmap.Select32 of that rank',
+        'bitmap.Select32/ToArray': 'bitmap.ToArray + bitmap.IndexSelect32 + bitmap.Select32 for every i < len(ToArray)',
         'bitmap.Select32/held': 'bitmap.IndexSelect32(ws), index builds on a decoy, bitmap.Select32 twice',
+        'bitmap.Select32R64': 'bitmap.IndexSelect32R64 + bitmap.Select32R64',
+        'bitmap.Select32R64/NextOne': 'bitmap.IndexSelect32R64 + bitmap.Select32R64, then bitmap.NextOne(ws, a+1, '
+                                      '64*len)',
+        'bitmap.Select32R64/Rank128': 'bitmap.IndexRank128 + bitmap.Rank128 at p, then bitmap.IndexSelect32R64 + '
+                                      'bitmap.Select32R64 of that rank',
+        'bitmap.Select32R64/ToArray': 'bitmap.ToArray + bitmap.IndexSelect32R64 + bitmap.Select32R64 for every i < '
+                                      'len(ToArray)',
         'bitmap.Select32R64/held': 'bitmap.IndexSelect32R64(ws), index builds on a decoy, bitmap.Select32R64 twice'},
- 'rule': 'cases = corpus + held-index cases over ascending word counts 1..70 (index built, decoy indexes built, then the '
-         'first index queried twice; inputs compared before/after) + exhaustive sweeps (every non-zero byte at byte positions of a one-word bitmap and as upper '
-         'byte of a 16-bit quarter x all i = select8Lookup through both table-index expressions; all 1- and 2-bit '
-         'words x all i; all subsets of 4 positions around every multiple of 8 in 3 words; all-ones bitmaps) + random '
-         'bitmaps of 1..40 words in 6 density classes with runs of empty words and empty tails, i forced to 0, n-1, '
-         '32k-1, 32k, 32k+1, 32k+31 plus random. A select case is non-trivial when i >= 1; shape key = (words '
-         'skipped from the checkpoint, checkpoint at word start or inside, byte of the word holding the answer, '
-         'rank inside that byte, next 1 in same/next/later word or none, i mod 32 class). An index case is '
-         'non-trivial when the bitmap has more than 32 1-bits. distinct = distinct (op,args)'}
+ 'rule': 'cases = corpus + held-index cases over ascending word counts 1..70 (index built, decoy indexes built, then '
+         'the first index queried twice; inputs compared before/after) + exhaustive sweeps (every non-zero byte at '
+         'byte positions of a one-word bitmap and as upper byte of a 16-bit quarter x all i = select8Lookup through '
+         'both table-index expressions; all 1- and 2-bit words x all i; all subsets of 4 positions around every '
+         'multiple of 8 in 3 words; all-ones bitmaps) + random bitmaps of 1..40 words in 6 density classes with runs '
+         'of empty words and empty tails, i forced to 0, n-1, 32k-1, 32k, 32k+1, 32k+31 plus random. A select case is '
+         'non-trivial when i >= 1; shape key = (words skipped from the checkpoint, checkpoint at word start or inside, '
+         'byte of the word holding the answer, rank inside that byte, next 1 in same/next/later word or none, i mod 32 '
+         'class). An index case is non-trivial when the bitmap has more than 32 1-bits. distinct = distinct (op,args). '
+         'Large bitmaps of 64..257 words (..600 thorough) in 3 shapes: index ops, selects at i = 0, n-1, around bit '
+         'positions 4096 and 32768, around the last checkpoint, random. Widened composites: rank(select(i)) through '
+         'Rank64 and Rank128 (expected (i,1)) and select(rank(p)) (expected: first 1-bit at or after p and the one '
+         'after it) on 1-/2-bit words x all p (a third of them in the quick tier), the straddle sets, the random and '
+         'the large bitmaps with p on a 1-bit, one after, one before, at word starts/ends, 0, the last 1-bit. A '
+         'select(rank(p)) case is non-trivial unless p is the first 1-bit of the bitmap; key = (p hits a 1-bit / '
+         'answer in same / next / later word, p at word start / end / inside, where the 1-bit after the answer is, '
+         'answer index mod 32 class). Select against NextOne: every rank(select(i)) case is also run as '
+         '(a,b)=select(i) followed by NextOne(a+1, 64*len) (expected b, or -1 where b = 64*len); every select(rank(p)) '
+         'case is also run as NextOne(p, 64*len) beside select(rank(p)), plus p past the last 1-bit, p = 64*len-1 and '
+         'the first word boundary after the last 1-bit (expected -1, key nfrom/none). Whole-bitmap sweeps against '
+         'ToArray (one case = ToArray(words) and select(i) for every i): empty / all-zero / all-ones bitmaps, every '
+         'random bitmap of at most 6 words, one in 8 of the others, the sparse large bitmaps; non-trivial with at '
+         'least 2 words and 33 1-bits, key = (checkpoints, words). Select against PrevOne: every rank(select(i)) case '
+         'is also run as a = select(i) followed by PrevOne(0, a) (expected select(i-1), -1 for i = 0; key = distance '
+         'in words to the previous 1-bit and byte of the selected bit)'}
